@@ -206,6 +206,8 @@ func VString(v *ast.Value) string { panic("ghost") }
 //@ define sameSig(x *ast.FieldDefinition, y *ast.FieldDefinition) bool = TString(x.Type) == TString(y.Type) && len(x.Arguments) == len(y.Arguments) && forall(k, 0, len(x.Arguments), sameArg(x.Arguments[k], y.Arguments[k]))
 // gqlparser's schema validation rejects a type that declares a field name twice
 //@ define uniqueNames(l ast.FieldList) bool = forall(u, 0, len(l), forall(v, 0, u, l[v].Name != l[u].Name))
+// (the same statement with other variable names: as a hypothesis it is instantiated at more than the goal's own u, v)
+//@ define uniqueNamesIn(l ast.FieldList) bool = forall(p, 0, len(l), forall(q, 0, p, l[q].Name != l[p].Name))
 
 //@ func isSameFieldSignature
 //@ props C05 C03
@@ -223,6 +225,13 @@ func VString(v *ast.Value) string { panic("ghost") }
 //@ ensures[fresh] fresh(result)
 //@ modifies fresh
 //@ loop 0 invariant[all] fresh(result) && forall(j, 0, it, !hasprefix(t.Fields[j].Name, "__") ==> exists(m, 0, len(result), result[m] == t.Fields[j])) @using all
+//@ ensures[from] forall(m, 0, len(result), exists(j, 0, len(t.Fields), result[m] == t.Fields[j])) @using from
+//@ assumes[unique-in] uniqueNamesIn(t.Fields)
+//@ ensures[unique] uniqueNames(result) @using from, unique, unique-in
+//@ loop 0 modifies result[*], fresh
+//@ loop 0 invariant[own] fresh(result) && (base(result) == base(atloop(result)) && off(result) == off(atloop(result)) || freshloop(result))
+//@ loop 0 invariant[from] forall(m, 0, len(result), exists(j, 0, it, result[m] == t.Fields[j])) @using from, own
+//@ loop 0 invariant[unique] uniqueNames(result) @using from, unique, unique-in, own
 //@ end
 
 //@ define copyOf(x *ast.FieldDefinition, y *ast.FieldDefinition) bool = x != nil && x.Name == y.Name && x.Type == y.Type && sameslice(x.Arguments, y.Arguments)
@@ -232,8 +241,12 @@ func VString(v *ast.Value) string { panic("ghost") }
 //@ returns res, err
 //@ requires a != nil && b != nil
 //@ assumes[unique] uniqueNames(a.Fields)
+//@ assumes[unique-in] uniqueNamesIn(b.Fields)
 //@ ensures[type-conflict-rejected] err == nil && a.Name != "Query" ==> forall(j, 0, len(b.Fields), !hasprefix(b.Fields[j].Name, "__") ==> forall(i, 0, len(a.Fields), a.Fields[i].Name == b.Fields[j].Name ==> sameSig(a.Fields[i], b.Fields[j]))) @using checked, all @props C05
 //@ ensures[node-overlap-rejected] err == nil && a.Name != "Query" && implementsNode(a) ==> forall(j, 0, len(b.Fields), !hasprefix(b.Fields[j].Name, "__") && !idField(b.Fields[j]) ==> forall(i, 0, len(a.Fields), a.Fields[i].Name != b.Fields[j].Name)) @using ovl, some, all, spec @props C05
+// C05: a shared plain type or input must be identical or disjoint: when one field of b (other than the shared id) is
+// also a field of a, every field of b is (mergeCustomObjects asks the same with a and b exchanged)
+//@ ensures[partial-overlap-rejected] err == nil && a.Name != "Query" ==> forall(j1, 0, len(b.Fields), forall(i1, 0, len(a.Fields), !hasprefix(b.Fields[j1].Name, "__") && b.Fields[j1].Name != "id" && a.Fields[i1].Name == b.Fields[j1].Name ==> forall(j2, 0, len(b.Fields), !hasprefix(b.Fields[j2].Name, "__") ==> exists(i2, 0, len(a.Fields), a.Fields[i2].Name == b.Fields[j2].Name)))) @using someovb, allinb @props C05
 //@ ensures[a-kept] err == nil && a.Name != "Query" ==> len(res) >= len(a.Fields) && forall(i, 0, len(a.Fields), res[i].Name == a.Fields[i].Name) @using prefix, ukeep @props C03
 //@ ensures[b-kept] err == nil && a.Name != "Query" ==> len(res) == len(a.Fields) || forall(j, 0, len(b.Fields), !hasprefix(b.Fields[j].Name, "__") ==> exists(m, 0, len(res), res[m].Name == b.Fields[j].Name)) @using b-kept, all, ukeep, own @props C03
 //@ modifies fresh
@@ -250,8 +263,17 @@ func VString(v *ast.Value) string { panic("ghost") }
 //@ loop 2 invariant[ukeep] a.Name != "Query" ==> len(unchnagedResult) == len(a.Fields) && (base(unchnagedResult) == 0 || (fresh(unchnagedResult) && base(unchnagedResult) != base(result) && base(unchnagedResult) != base(mf))) && forall(i, 0, len(a.Fields), unchnagedResult[i] != nil && unchnagedResult[i].Name == a.Fields[i].Name) @using ukeep, own, ucopy, prefix
 //@ loop 2 invariant[b-kept] forall(j, 0, it, exists(m, 0, len(result), result[m].Name == mf[j].Name)) @using b-kept, own
 //@ loop 2 invariant[ovl] a.Name != "Query" ==> forall(j, 0, it, forall(i, 0, len(a.Fields), a.Fields[i].Name == mf[j].Name && !idField(mf[j]) ==> has(isOverlappinggMap, j) && isOverlappinggMap[j])) @using ovl, prefix, spec, own, keys
+// no field of b still to come has the name of one appended earlier (b declares no name twice), so a field of b
+// found in the list under construction is a field of a
+//@ loop 2 invariant[tail] a.Name != "Query" ==> forall(m, len(a.Fields), len(result), forall(jj, it, len(mf), result[m].Name != mf[jj].Name)) @using tail, own, prefix, unique
+//@ loop 2 invariant[absent] a.Name != "Query" ==> forall(j, 0, it, !has(isOverlappinggMap, j) || isOverlappinggMap[j] ==> exists(i, 0, len(a.Fields), a.Fields[i].Name == mf[j].Name)) @using absent, tail, prefix, own, keys
 //@ loop 3 invariant[some] forallT(k, int, seen(k) && isOverlappinggMap[k] ==> isSomeOverlappingg)
 //@ loop 4 invariant[own] base(overlappingFields) == 0 || fresh(overlappingFields)
+//@ loop 3 invariant[allov] isAllOverlappingg ==> forallT(k, int, seen(k) ==> isOverlappinggMap[k])
+//@ loop 4 invariant[someov] a.Name != "Query" ==> forall(m, 0, len(mf), forall(i, 0, len(a.Fields), a.Fields[i].Name == mf[m].Name && mf[m].Name != "id" ==> isSomeOverlappingg)) @using someov, ovl, some, spec
+//@ loop 4 invariant[allin] a.Name != "Query" && isAllOverlappingg ==> forall(j, 0, len(mf), exists(i, 0, len(a.Fields), a.Fields[i].Name == mf[j].Name)) @using allin, allov, absent
+//@ loop 4 invariant[someovb] a.Name != "Query" ==> forall(j, 0, len(b.Fields), forall(i, 0, len(a.Fields), !hasprefix(b.Fields[j].Name, "__") && b.Fields[j].Name != "id" && a.Fields[i].Name == b.Fields[j].Name ==> isSomeOverlappingg)) @using someovb, someov, all
+//@ loop 4 invariant[allinb] a.Name != "Query" && isAllOverlappingg ==> forall(j, 0, len(b.Fields), !hasprefix(b.Fields[j].Name, "__") ==> exists(i, 0, len(a.Fields), a.Fields[i].Name == b.Fields[j].Name)) @using allinb, allin, all
 //@ loop 2 invariant[checked] a.Name != "Query" ==> forall(j, 0, it, forall(i, 0, len(a.Fields), a.Fields[i].Name == mf[j].Name ==> sameSig(a.Fields[i], mf[j]))) @using checked, prefix, spec, own, unique
 //@ end
 
@@ -315,6 +337,11 @@ func VString(v *ast.Value) string { panic("ghost") }
 //@ ensures[members-a-kept] err == nil ==> forall(i, 0, len(a.Types), inStrings(res.Types, a.Types[i])) @props C03
 //@ ensures[members-b-kept] err == nil ==> forall(i, 0, len(b.Types), inStrings(res.Types, b.Types[i])) @props C03
 //@ ensures[kind-name] err == nil ==> res.Kind == a.Kind && res.Name == a.Name @props C03
+// C05: a shared plain type or input that is neither identical nor disjoint is rejected, whichever service comes first:
+// when the two declarations share a field other than id, each has every field of the other
+//@ ensures[identical-or-disjoint-b] err == nil && a.Name != "Query" && b.Name != "Query" ==> forall(j1, 0, len(b.Fields), forall(i1, 0, len(a.Fields), !hasprefix(b.Fields[j1].Name, "__") && b.Fields[j1].Name != "id" && a.Fields[i1].Name == b.Fields[j1].Name ==> forall(j2, 0, len(b.Fields), !hasprefix(b.Fields[j2].Name, "__") ==> exists(i2, 0, len(a.Fields), a.Fields[i2].Name == b.Fields[j2].Name)))) @using partial-overlap-rejected @props C05
+// (the variables are named as in the callee's postcondition read with a and b exchanged: j over a's fields, i over b's)
+//@ ensures[identical-or-disjoint-a] err == nil && a.Name != "Query" && b.Name != "Query" ==> forall(i1, 0, len(b.Fields), forall(j1, 0, len(a.Fields), !hasprefix(b.Fields[i1].Name, "__") && b.Fields[i1].Name != "id" && a.Fields[j1].Name == b.Fields[i1].Name ==> forall(j2, 0, len(a.Fields), !hasprefix(a.Fields[j2].Name, "__") ==> exists(i2, 0, len(b.Fields), b.Fields[i2].Name == a.Fields[j2].Name)))) @using partial-overlap-rejected @props C05
 //@ ensures[enum-a-kept] err == nil ==> forall(i, 0, len(a.EnumValues), inEnum(res.EnumValues, old(a.EnumValues[i].Name))) @using enum-a, enum-fresh @props C03
 //@ ensures[enum-b-kept] err == nil ==> forall(i, 0, len(b.EnumValues), inEnum(res.EnumValues, old(b.EnumValues[i].Name))) @using enum-b, enum-fresh @props C03
 //@ ensures[directives-a-kept] err == nil ==> forall(i, 0, len(a.Directives), inDirs(res.Directives, old(a.Directives[i].Name))) @using dir-a, dir-fresh @props C03
